@@ -932,3 +932,79 @@ def translate_issorted(repo='/repo', tu=None):
     return ('(* GENERATED by props/C17/sel2coq.py (on tools/cxx2coq.py) from HashSorter.h: pvIsGrouped, pvIsSorted -- do not edit *)\n\n'
             'From Coq Require Import ZArith Bool List.\nFrom MomoCommon Require Import GenPrelude.\nLocal Open Scope Z_scope.\n\n'
             'Section Gen_IsSorted_sec.\nVariable eqf : Z -> Z -> bool.\nVariable loop_fuel : nat.\n\n' + '\n\n'.join(out) + '\n\nEnd Gen_IsSorted_sec.\n')
+
+
+# ======================================================================================================================
+# last round: HashSorter::pvFindNext (forward-iterator instantiation), translated from the source
+class FnxFn(IsFn):
+    """iterators are absolute positions (begin is an offset, `Iterator iter = begin` a Z local); pvFindOther(iter, n, equalFunc) is
+    the Section variable findOther : position -> count -> position (its contract comes from the hand model's pvFindOther, proved
+    in Find_Proofs); SMath::Dist(begin, iter) = iter - begin; equalFunc(*iter, item) compares the item at iter with the parameter
+    item; the two returns are exit codes 1 = { iter, true }, 0 = { iter, false } with iter in the loop state."""
+    def pos(self, n):
+        t = strip_casts(n)
+        if t.get('kind') == 'DeclRefExpr' and t['referencedDecl']['name'] == 'iter':
+            return 'iter'
+        return super().pos(n)
+
+    def e(self, n):
+        oi = opinfo(n)
+        if oi is not None and oi[0] == 'operator()' and oi[1] == 'equalFunc':
+            a0 = self.deref_pos(oi[2][0]); b = strip_casts(oi[2][1])
+            if b.get('kind') == 'DeclRefExpr' and b['referencedDecl']['name'] == 'item':
+                return '(eqf (items %s) item)' % a0
+        ci = callinfo(n)
+        if ci is not None and ci[0] == 'pvFindOther':
+            return '(findOther %s %s)' % (self.pos(ci[1][0]), self.e(ci[1][1]))
+        if ci is not None and ci[0] == 'Dist' and len(ci[1]) == 2:
+            return '(%s - %s)' % (self.pos(ci[1][1]), self.pos(ci[1][0]))
+        t = strip_casts(n)
+        if t.get('kind') == 'DeclRefExpr' and t['referencedDecl']['name'] == 'iter' and 'iter' in self.env:
+            return 'iter'
+        return super().e(n)
+
+    def decl(self, s, rest):
+        vs = [v for v in s.get('inner', []) if v.get('kind') == 'VarDecl']
+        if len(vs) == 1 and vs[0]['name'] == 'iter':
+            init = [x for x in vs[0].get('inner', []) if isinstance(x, dict)]
+            self.env['iter'] = ('u', 64)
+            return 'let iter := %s in\n%s' % (self.pos(init[0]), rest())
+        return super().decl(s, rest)
+
+    def ret_stmt(self, v, jc):
+        lits = []
+        def walk(n):
+            if isinstance(n, dict):
+                if n.get('kind') == 'CXXBoolLiteralExpr':
+                    lits.append(bool(n['value']))
+                for c in n.get('inner', []):
+                    walk(c)
+        walk(v)
+        if len(lits) != 1 or ('"name": "iter"' not in json.dumps(v)):
+            raise TranslationError('pvFindNext: unrecognised return statement')
+        return jc['ret']('(%d)' % (1 if lits[0] else 0))
+
+
+def translate_findnext(repo='/repo', tu=None):
+    tu = tu or os.path.join(os.path.dirname(os.path.abspath(__file__)), 'inst_hs.cpp')
+    cfg = {'tu': tu, 'filter': 'HashSorter', 'includes': [os.path.join(repo, 'include')]}
+    objs = cxx2coq.load_objs(cxx2coq.dump_ast(cfg, repo))
+    ds = [d for d in _methods(objs, 'pvFindNext') if any(c.get('kind') == 'TemplateArgument' for c in d.get('inner', []))
+          and '(unsigned long *,' in d['type']['qualType']]
+    if len(ds) != 1:
+        raise TranslationError('expected one forward-iterator instantiation of HashSorter::pvFindNext, found %d' % len(ds))
+    d = dict(ds[0]); d.pop('storageClass', None)
+    # `item` is `const value_type&` of the instantiation (an item handle = 64-bit value here)
+    d['inner'] = [dict(c, type={'qualType': 'unsigned long'}) if (c.get('kind') == 'ParmVarDecl' and c.get('name') == 'item') else c for c in d['inner']]
+    cfgf = {'name': 'Gen_FindNext', 'fields': {'items': 'array', 'hashes': 'array'}, 'functions': [],
+            'functor_params': {'pvFindNext': {'iterHashFunc': 'skip', 'equalFunc': 'skip'}}, 'ret_types': {'pvFindNext': 'unsigned long'},
+            'fuel': {'pvFindNext': 'loop_fuel'}}
+    f = FnxFn(cxx2coq.Ctx(cfgf), d, 'pvFindNext')
+    try:
+        txt = f.gen()
+    except TranslationError as ex:
+        raise TranslationError('pvFindNext: %s' % ex)
+    return ('(* GENERATED by props/C17/sel2coq.py (on tools/cxx2coq.py) from HashSorter.h: pvFindNext (forward iterators); returns are\n'
+            '   exit codes, pvFindOther is the Section variable findOther (see sel2coq.FnxFn) -- do not edit *)\n\n'
+            'From Coq Require Import ZArith Bool List.\nFrom MomoCommon Require Import GenPrelude.\nLocal Open Scope Z_scope.\n\n'
+            'Section Gen_FindNext_sec.\nVariable eqf : Z -> Z -> bool.\nVariable findOther : Z -> Z -> Z.\nVariable loop_fuel : nat.\n\n' + txt + '\n\nEnd Gen_FindNext_sec.\n')
